@@ -50,6 +50,23 @@ def gen_twice():
     return out
 
 
+def gen_flat(spellings=None, dims=(2, 1)):
+    """single-option deviations on the SPELLING of the flatten in front of the head's first Linear (net2d prog['flat']): explicit
+    non-negative end_dim (positional / keyword / method / nn.Flatten(1, d + 1)), explicit -1, nn.Flatten(), negative start_dim;
+    base programs: conv -> flatten -> linear, conv -> pool -> flatten -> linear -> linear, conv -> gap -> flatten -> linear"""
+    from .net2d import FLAT_SPELLINGS
+    out = []
+    for dim in dims:
+        for stages, h in (([{'op': 'conv', 'cout': 3}], 'flatlin'), ([{'op': 'conv'}, {'op': 'pool'}], 'linlin'),
+                          ([{'op': 'conv', 'cout': 3}], 'gaplin')):
+            for fl in (spellings or FLAT_SPELLINGS):
+                p = {'cin': 3, 'size': 6, 'stages': [dict(s) for s in stages], 'head': h, 'flat': fl}
+                if dim == 1:
+                    p.update(dim=1, size=8)
+                out.append(p)
+    return out
+
+
 FCN_HEADS = ['fcn', 'fcnskip', 'dwout']
 
 
